@@ -98,6 +98,16 @@ CLAIMED.update({
     ),
 })
 
+CLAIMED.update({
+    "C19": dict(
+        technique="order-type evaluation of the class masks of array_discrete for 1-4 thresholds (bounded instantiation of the class loop), sibling agreement of the 9 Field-level wrappers, skeleton match of documented compositions",
+        text="The class masks are evaluated over every order type of a value against 1-4 ascending thresholds: each value receives exactly the documented class (t_{k-1}, t_k] and none is "
+        "left unassigned; threshold construction per mode; the wrappers agree on mean (0 iff removed by processing) / variance (sill) arguments, normality guards and forwarding, and `apply` "
+        "reaches every exported transformation; binary = discrete with two values; default bounds of arcsine/U-quadratic are the variance-preserving half-widths. Target distributions as such are not decided.",
+        ref="DESIGN.md section 4 C19",
+    ),
+})
+
 NOT_APPLICABLE = {
     "C01": "distributional property over seeds (ensemble mean/covariance at Monte-Carlo rate); no code-shape clause beyond those decided under C04/C11/C12 - needs sampling or quadrature, a different technique family",
 }
